@@ -3,6 +3,22 @@
 cd "$(dirname "$0")/.."
 out=${1:-/tmp/verif-regress.log}
 : > $out
+# the reference function table must describe /repo's HEAD (regenerate with tools/gen_anchor_table.py after every /repo commit)
+python3 - >> $out <<'PY'
+import json, os, sys
+sys.path.insert(0, "/verif")
+from analysis import export
+from analysis.facts import fn_table
+d = export.export("/repo")[0]
+ref = json.load(open("/verif/analysis/anchor_table.json"))
+stale = []
+for f in ("scrut-lib.json", "scrut-bin.json"):
+    j = json.load(open(os.path.join(d, f)))
+    cur = fn_table(j)
+    if cur != ref.get(j["crate"]):
+        stale.append(j["crate"])
+print("anchor table: %s" % ("current" if not stale else "STALE for %s - run tools/gen_anchor_table.py" % stale))
+PY
 for i in 01 02 03 04 05 06 07 08 09 10 11 12 13 14 15 16 17 18 19 20; do
   ./vcheck C$i | tail -1 >> $out
   python3 -m analysis.selftest C$i | python3 -c "
